@@ -77,7 +77,10 @@ def build(job):
         lines = [ln for ln in git(root, "status", "--porcelain").split("\n") if ln]
         head0 = git(root, "rev-parse", "HEAD").strip()
         before = proj.snapshot()
-        r = drive.cli(["update", "--patch", "--no-fetch"] + (["--allow-dirty"] if allow else []), cwd=proj.root, env=GENV)
+        # (a third of the runs with --ignore-vcs-tag: the option speaks of where the old version is taken from; there are no tags here, the dirty check is the same)
+        import zlib
+        ign = ["--ignore-vcs-tag"] if zlib.crc32(repr((files, allow, cfg_state)).encode()) % 3 == 0 else []
+        r = drive.cli(["update", "--patch", "--no-fetch"] + ign + (["--allow-dirty"] if allow else []), cwd=proj.root, env=GENV)
         after = proj.snapshot()
         head1 = git(root, "rev-parse", "HEAD").strip()
         sweep = False
